@@ -28,6 +28,11 @@ pub enum Op {
     Demand(u16, u16),
     /// let virtual time pass
     Wait(u16),
+    /// submit a user WRITE (dead-band of point id) on association a: a request that is not a READ
+    SubmitWrite(u16),
+    /// outstation a sends a null unsolicited response now, whatever the master is doing (it counts as link activity
+    /// of THAT outstation, and of no other)
+    Chatter(u16),
 }
 
 #[derive(Clone, Debug, Serialize, Deserialize, PartialEq)]
@@ -114,6 +119,8 @@ impl Prop for Sched {
             3 => any::<u16>().prop_map(Op::Submit),
             1 => (any::<u16>(), any::<u16>()).prop_map(|(a, p)| Op::Demand(a, p)),
             4 => prop_oneof![Just(1u16), Just(19), Just(20), Just(21), 0u16..400].prop_map(Op::Wait),
+            2 => any::<u16>().prop_map(Op::SubmitWrite),
+            2 => any::<u16>().prop_map(Op::Chatter),
         ];
         let reply = prop_oneof![6 => Just(Reply::Prompt), 2 => (1u16..199).prop_map(Reply::Late), 1 => Just(Reply::Never)];
         let n = if tier == Tier::Quick { 20 } else { 50 };
@@ -194,6 +201,7 @@ async fn run_case(case: &Case) -> CaseOut {
     let mut last_activity: Vec<u64> = vec![rig.now_ms(); n];
     let mut queue: Vec<Vec<(u32, u64)>> = vec![vec![]; n]; // user requests submitted, not yet transmitted: (id, t_submit)
     let mut next_user: u32 = 0;
+    let mut chatter_seq: u8 = 0;
     let mut outstanding: Option<Outstanding> = None;
     let mut tx_count: usize = 0;
     let mut poll_runs: usize = 0;
@@ -290,6 +298,9 @@ async fn run_case(case: &Case) -> CaseOut {
                         // what is it?
                         let what = if f.func == func::READ && f.objects.len() == 7 && f.objects[0] == 30 && f.objects[2] == 0x01 {
                             What::User(f.objects[3] as u32 | ((f.objects[4] as u32) << 8))
+                        } else if f.func == func::WRITE && f.objects.len() >= 7 && f.objects[0] == 34 {
+                            out.label("non_read_user_request");
+                            What::User(f.objects[5] as u32 | ((f.objects[6] as u32) << 8))
                         } else if f.func == func::READ {
                             match (0..polls[a].len()).find(|p| poll_objects(*p) == f.objects) {
                                 Some(p) => What::Poll(p),
@@ -397,6 +408,30 @@ async fn run_case(case: &Case) -> CaseOut {
                 // a further one fails with TooManyRequests instead of being queued
                 pendings.lock().unwrap().insert(id, (p, queue[a].len() >= 16));
                 queue[a].push((id, rig.now_ms()));
+            }
+            Op::SubmitWrite(a) => {
+                let a = (*a as usize * n) >> 16;
+                let id = next_user;
+                next_user += 1;
+                let mut h = rig.assocs[&addr(a)].handle.clone();
+                let p = rig.submit("write", async move { h.write_dead_bands(vec![DeadBandHeader::group34_var1_u16(vec![(id as u16, 5)])]).await });
+                rig.settle().await;
+                pendings.lock().unwrap().insert(id, (p, queue[a].len() >= 16));
+                queue[a].push((id, rig.now_ms()));
+            }
+            Op::Chatter(a) => {
+                let a = (*a as usize * n) >> 16;
+                chatter_seq = (chatter_seq + 1) & 0x0F;
+                let f = Fragment { fir: true, fin: true, con: true, uns: true, seq: chatter_seq, func: func::UNSOLICITED_RESPONSE, iin: Some((0, 0)), objects: vec![] };
+                rig.respond(addr(a), &f);
+                last_activity[a] = rig.now_ms();
+                if let Some(o) = &outstanding {
+                    if o.assoc != a {
+                        out.label("chatter_from_another_outstation_while_waiting");
+                        out.nontrivial = true;
+                    }
+                }
+                rig.settle().await;
             }
             Op::Demand(a, p) => {
                 let a = (*a as usize * n) >> 16;
